@@ -115,7 +115,7 @@ def run(tier, seed, which="C06"):
                 sc = byid[e["text"]]
                 out.append(dict(e="Obj", tag="orig", null=0, rows=1, names=[kv.asc(x) for x in sc["names"]], seqs=[kv.asc(r) for r in sc["rows"]]))
         kv.write_ndjson(tp, out)
-        res = kv.run_tlc("RoundTripTrace", "RoundTripTrace.cfg", bwd, trace=tp, cont=True, timeout=900, heap="3g")
+        res = kv.run_tlc("RoundTripTrace", "RoundTripTrace.cfg", bwd, trace=tp, timeout=900, heap="3g")
         return bi, tp, rc, err, res
 
     for bi, tp, rc, err, res in kv.pmap(do, range(len(batches)), workers=12):
